@@ -1,4 +1,5 @@
 import MdsVerif.Proofs.Distinct
+import MdsVerif.Proofs.DistinctExp
 import MdsVerif.Gen.Distinct
 import Mathlib.Data.Finset.Card
 /-!
@@ -16,7 +17,9 @@ the low-bit test (`keepOne`).
   halving pass kept every element**; `C19_F8_witness` — the recorded history on
   which `Len = 3 > 2` (known finding F8: one halving pass, `if` not `for`);
 * `C19_current` — the facts regenerated from distinct.go are the pinned ones;
-* unbiasedness: see `Props/C19Exp.lean` (`C19_unbiased`, `C19_bias_bound`).
+* unbiasedness as an exact expectation in the idealised probabilistic semantics `addD`/`runD`
+  (`Proofs/DistinctExp.lean`): `C19_unbiased_per_value`, `C19_unbiased`, `C19_coin_fraction`,
+  `C19_bias_bound_partial`.
 -/
 namespace MdsVerif.Props.C19
 open MdsVerif.Model.Distinct MdsVerif.Proofs.Distinct
@@ -145,5 +148,74 @@ theorem C19_current :
     ((Gen.Distinct.removeBit = 0 ∧ Gen.Distinct.keepOne = true) ∨
      (Gen.Distinct.removeBit = 1 ∧ Gen.Distinct.keepOne = false)) := by
   decide
+
+/-! ## Unbiasedness (idealised probabilistic semantics: independent uniform words)
+
+`runD q (new size) vs` is the finite distribution (`List (ℚ × St)`) over final states obtained by replacing
+"the next scripted word" in `Model.Distinct.add` by a coin with keep-probability `q k` at level `k ≥ 1` and
+one fair bit per buffered element in the halving pass; `E d f` is the expectation of `f`;
+`countQ s = 2^k · Len` is `Count` without the `uint64` wrap (`C19_countQ_is_count`). -/
+open MdsVerif.Proofs.DistinctExp
+
+/-- `countQ` is the model's `Count` whenever `Len·2^k` fits a `uint64` -/
+theorem C19_countQ_is_count (s : St) (h1 : s.k < 64) (h2 : s.len * 2 ^ s.k < 2 ^ 64) :
+    countQ s = (s.count : ℚ) := by
+  rw [(C19_count_shape true s 0 [] []).2.1 h2 h1]
+  unfold countQ St.len
+  push_cast
+  ring
+
+/-- **Per value.**  With exact `2^-k` coins, for every stream, every size, every start state with a
+    duplicate-free buffer and every value `x`: `E[2^k·1_{x ∈ buf}]` is `1` if `x` occurs in the stream and
+    keeps its initial value otherwise. -/
+theorem C19_unbiased_per_value (q : Nat → ℚ) (hq : ∀ k, k ≠ 0 → 2 ^ k * q k = 1) (x : Nat)
+    (vs : List Nat) (s : St) (hnd : s.buf.Nodup) :
+    E (runD q s vs) (phi x) = if x ∈ vs then 1 else phi x s :=
+  run_phi q hq x vs s hnd
+
+/-- **E[Count] = D.**  With exact `2^-k` coins the expectation of `Count = Len·2^k` after any stream
+    (any values, any repetition pattern, any length) on a counter of any size equals the number of distinct
+    values of the stream — below, at and far above the buffer size, F8 notwithstanding. -/
+theorem C19_unbiased (q : Nat → ℚ) (hq : ∀ k, k ≠ 0 → 2 ^ k * q k = 1) (size : Nat) (vs : List Nat) :
+    E (runD q (new size) vs) countQ = (vs.toFinset.card : ℚ) :=
+  unbiased q hq size vs
+
+/-- non-vacuity: `q k = 1/2^k` satisfies the hypothesis; size 2, stream 5 5 7 9 7 (96 outcomes; `#eval` gives 3) -/
+example : E (runD (fun k => 1 / 2 ^ k) (new 2) [5, 5, 7, 9, 7]) countQ = 3 := by
+  have h := C19_unbiased (fun k => 1 / 2 ^ k) (fun k _ => by field_simp) 2 [5, 5, 7, 9, 7]
+  rw [h]
+  decide
+
+/-- The code's coin: the keep-probability at level `k` is `qFix k = pOf k / 2^64`, because exactly `pOf k` of
+    the `2^64` words fail the model's drop test `pOf k ≤ word`; and `2^k·qFix k = 1 − 2^k/2^64` for
+    `1 ≤ k ≤ 64` (the fixed-point threshold is `2^(64-k) − 1`, one short of `2^(64-k)`). -/
+theorem C19_coin_fraction (k : Nat) :
+    ((Finset.range (2 ^ 64)).filter (fun w => ¬ pOf k ≤ w)).card = pOf k ∧
+    (k ≤ 64 → g qFix k = if k = 0 then 1 else 1 - 2 ^ k / 2 ^ 64) :=
+  ⟨coin_fraction k, g_qFix k⟩
+
+/-
+Full-strength statement planned in DESIGN.md §6 (not proved):
+  for every stream with D distinct values on whose (positive-probability) paths at most K halving passes
+  happen,  D·(1 − 2^(K−64)) ≤ E[Count] ≤ D.
+-/
+/-- **Two-sided bound for the code's fixed-point coin — partial.**  `E[Count] ≤ D` for every stream (the
+    estimator never over-estimates in expectation), and `D·(1 − 2^n/2^64) ≤ E[Count]` where `n` is the number
+    of `Add`s.  What is missing w.r.t. the planned statement: the lower bound is in terms of the stream length
+    `n` (every `Add` raises `k` by at most one) instead of the number `K` of halving passes, so it is
+    informative only for `n < 64`; a bound through `E[2^k]` needs a maximal inequality that is not formalised.
+    The exact per-value identity behind it is proved: an `Add` of `x` at level `k` resets `E[2^k·1_{x∈buf}]`
+    to `1 − 2^k/2^64` (`step_self`, `C19_coin_fraction`) and other `Add`s leave it unchanged (`step_other`). -/
+theorem C19_bias_bound_partial (size : Nat) (vs : List Nat) :
+    (vs.toFinset.card : ℚ) * (1 - 2 ^ vs.length / 2 ^ 64) ≤ E (runD qFix (new size) vs) countQ ∧
+    E (runD qFix (new size) vs) countQ ≤ (vs.toFinset.card : ℚ) :=
+  bias_bound size vs
+
+/-- non-vacuity: the bias is real — size 2, stream 5 5 7 9 7: `E[Count] < 3` (evaluated: `3 − 5·2^-64·…`) -/
+example : (3 : ℚ) * (1 - 2 ^ 5 / 2 ^ 64) ≤ E (runD qFix (new 2) [5, 5, 7, 9, 7]) countQ := by
+  have h := (C19_bias_bound_partial 2 [5, 5, 7, 9, 7]).1
+  have hc : ([5, 5, 7, 9, 7] : List Nat).toFinset.card = 3 := by decide
+  rw [hc] at h
+  exact h
 
 end MdsVerif.Props.C19
